@@ -9,6 +9,8 @@ import (
 	"path/filepath"
 	"testing"
 
+	"github.com/grafana/regexp"
+
 	"github.com/sourcegraph/zoekt"
 	"github.com/sourcegraph/zoekt/index"
 	"github.com/sourcegraph/zoekt/internal/verifkit"
@@ -111,6 +113,8 @@ func c01Search(tr *verifkit.Trace, l *c01Loaded, kind string, shard int, q *corp
 	tr.Emit(ev)
 }
 
+func regexpQuote(s string) string { return regexp.QuoteMeta(s) }
+
 func TestVerif_C01_Random(t *testing.T) {
 	tr := verifkit.Open(t)
 	defer tr.Close()
@@ -128,6 +132,20 @@ func TestVerif_C01_Random(t *testing.T) {
 		l := c01Load(t, c, true)
 		tr.Emit(c.Event())
 		g := &corpus.QGen{Rng: rng, C: c}
+		// targeted atoms that are rare in random trees: symbol atoms whose text ends exactly at (or
+		// one rune beyond) a section boundary, exact/substring branch atoms, file tombstoned names
+		for k := 0; k < 3; k++ {
+			pat := c.PickSymbolPattern(rng)
+			var e *corpus.Q
+			if k == 2 {
+				e = &corpus.Q{T: "regex", Pat: "^" + regexpQuote(pat) + "$", CT: true, CS: true}
+			} else {
+				e = &corpus.Q{T: "substr", Pat: pat, CT: true, CS: rng.Intn(2) == 0}
+			}
+			opts := &zoekt.SearchOptions{ChunkMatches: rng.Intn(2) == 0}
+			sh := c.Repos[rng.Intn(len(c.Repos))].Shard
+			c01Search(tr, l, "shard", sh, &corpus.Q{T: "symbol", Sub: []*corpus.Q{e}}, opts, detail, nil)
+		}
 		for k := 0; k < nq; k++ {
 			opts := &zoekt.SearchOptions{ChunkMatches: rng.Intn(2) == 0, NumContextLines: []int{0, 0, 1, 2, 5}[rng.Intn(5)]}
 			if rng.Intn(2) == 0 {
